@@ -195,6 +195,11 @@ def filter_rule(run, model, rule="C20.filter"):
                 if name in kinds.values():
                     return name == pred
                 return None  # an inspect predicate the table does not know: free
+            # ``isinstance(value, <type>)`` for the types the inspect predicates test
+            if ts[0] == "call" and ts[1] == ("builtin", "isinstance") and len(ts[2]) == 2 and ts[2][0] == vp:
+                same_as = {("builtin", "type"): "isclass", ("attr", ("module", "types"), "FunctionType"): "isfunction", ("attr", ("module", "types"), "LambdaType"): "isfunction", ("attr", ("module", "types"), "MethodType"): "ismethod", ("attr", ("module", "types"), "ModuleType"): "ismodule", ("attr", ("module", "types"), "BuiltinFunctionType"): "isbuiltin", ("attr", ("module", "types"), "BuiltinMethodType"): "isbuiltin"}.get(ts[2][1])
+                if same_as is not None:
+                    return same_as == pred
             return None
         got = tables.evaluate(strip_sites(rt), ev)
         want = pred is None
@@ -352,7 +357,7 @@ def no_nondeterminism(run, model, rule="C20.no-nondeterminism"):
                         bad = (n, "the module-level %s `%s` is used while the message is generated: the message of a violation would depend on earlier calls" % (kind, cv[2]))
         # caches: functools.lru_cache / cache decorators
         for d in fi.node.decorator_list:
-            if "cache" in src_of(d):
+            if "cache" in src_of(d) and not effects.pure_value_memo(fi.node, fi.module):
                 bad = (fi.node, "`@%s`: values computed for an earlier violation are reused" % src_of(d))
         if bad:
             run.violation(rule, fi.qual, bad[1], fi.loc(bad[0]), None, first_line(bad[0].stmt) if hasattr(bad[0], "stmt") and bad[0].stmt is not None else None)
@@ -557,8 +562,12 @@ def decorator_regex(run, model, rule="C07.layout-regex"):
         if len(vals) == 1 and isinstance(vals[0], ast.Call) and src_of(vals[0].func) == "re.compile" and vals[0].args and isinstance(vals[0].args[0], ast.Constant) and isinstance(vals[0].args[0].value, str) and len(vals[0].args) == 1 and not vals[0].keywords:
             patterns[name] = vals[0].args[0].value
 
+    aliases = {}  # local name bound to ``PATTERN.match`` -> PATTERN (a bound method kept in a local of the scanning function)
+
     def names_in(expr):
-        return [c.func.value.id for c in ast.walk(expr) if isinstance(c, ast.Call) and isinstance(c.func, ast.Attribute) and c.func.attr in ("match", "search") and isinstance(c.func.value, ast.Name) and c.func.value.id in patterns]
+        direct = [c.func.value.id for c in ast.walk(expr) if isinstance(c, ast.Call) and isinstance(c.func, ast.Attribute) and c.func.attr in ("match", "search") and isinstance(c.func.value, ast.Name) and c.func.value.id in patterns]
+        via = [aliases[c.func.id] for c in ast.walk(expr) if isinstance(c, ast.Call) and isinstance(c.func, ast.Name) and c.func.id in aliases]
+        return direct + via
 
     # the tests of inspect_decorator (and of the module's helpers it calls) that match lines: each is a disjunction
     todo, funcs = [fi], []
@@ -574,6 +583,12 @@ def decorator_regex(run, model, rule="C07.layout-regex"):
                 if cf is not None and cf.module.name == "_represent" and cf.cls is None and cf not in funcs:
                     todo.append(cf)
     tests = []
+    for g in funcs:
+        for sub in ast.walk(g.node):
+            if isinstance(sub, ast.Assign) and len(sub.targets) == 1 and isinstance(sub.targets[0], ast.Name) and isinstance(sub.value, ast.Attribute) and sub.value.attr in ("match", "search") and isinstance(sub.value.value, ast.Name) and sub.value.value.id in patterns:
+                n_binds = sum(1 for s2 in ast.walk(g.node) if isinstance(s2, ast.Name) and s2.id == sub.targets[0].id and isinstance(s2.ctx, ast.Store))
+                if n_binds == 1:
+                    aliases[sub.targets[0].id] = sub.value.value.id
     for g in funcs:
         for sub in ast.walk(g.node):
             if isinstance(sub, (ast.If, ast.While, ast.IfExp)) and names_in(sub.test):
